@@ -19,7 +19,7 @@ from vf.xmodel import Schema, Rop, Shadow, Bound
 SHARDS = {'quick': 16, 'thorough': 64}
 TIMEOUT = {'quick': 1500, 'thorough': 7200}
 MUST_HIT = ['Call.python-function', 'Call.python-bridge', 'Call.python-class-operation',
-            'Call.derived-attribute-early-bare-return', 'Call.earlier-component-rechecked', 'Call.builtin-external-entity', 'Call.legacy-keyword-bridge', 'Call.legacy-keyword-transform', 'Call.python-instance-operation', 'Call.derived-attribute', 'Call.derived-attribute-outside-state', 'Call.enumerator', 'Call.constant',
+            'Call.derived-attribute-early-bare-return', 'Call.argument-order-observable', 'Call.earlier-component-rechecked', 'Call.builtin-external-entity', 'Call.legacy-keyword-bridge', 'Call.legacy-keyword-transform', 'Call.python-instance-operation', 'Call.derived-attribute', 'Call.derived-attribute-outside-state', 'Call.enumerator', 'Call.constant',
             'Call.nested', 'Call.recursive', 'Call.bare-return', 'Call.no-return', 'Call.in-where-clause',
             'Call.in-loop-condition', 'Scope.caller-variable-kept', 'State.compared']
 MUST_REACH = ['bridgepoint/ooaofooa.py:mk_function', 'bridgepoint/ooaofooa.py:mk_bridge',
@@ -96,6 +96,7 @@ def call_node(e, args, target=None):
 
 
 LEGACY = {}
+ARG_ORDER = [0]
 PREVIOUS = []
 DER_FORMS = {}
 
@@ -124,6 +125,21 @@ class ModelGen(object):
         pure.body = [oalsem.return_(oalsem.bin_('+', oalsem.param('n'), oalsem.lit(1)))]
         pure.text = om.render(om.body(pure.body), self.render_rng, case=self.case)
         self.elems.append(pure)
+        # argument lists are evaluated from left to right: pair(a: <attribute read>, b: bump_all()) sees the
+        # attribute as it was before bump_all changed it
+        bump = Elem('f', 'bump_all', INT, [])
+        bump.body = [oalsem.select_from('many', 'ks', 'K'),
+                     oalsem.for_each('kk', 'ks', [oalsem.assign(oalsem.attr(oalsem.var('kk'), 'N'),
+                                                                oalsem.bin_('+', oalsem.attr(oalsem.var('kk'), 'N'),
+                                                                            oalsem.lit(1)))]),
+                     oalsem.return_(oalsem.lit(1))]
+        bump.text = om.render(om.body(bump.body), self.render_rng, case=self.case)
+        bump.pure = False
+        pair = Elem('f', 'pair', INT, [('a', INT), ('b', INT)])
+        pair.body = [oalsem.return_(oalsem.bin_('+', oalsem.bin_('*', oalsem.param('a'), oalsem.lit(100)),
+                                                oalsem.param('b')))]
+        pair.text = om.render(om.body(pair.body), self.render_rng, case=self.case)
+        self.elems.extend([bump, pair])
         if self.impure_logic:
             eff = Elem('f', 'effect_fn', BOOL, [])
             eff.body = [oalsem.create('k', 'K'), oalsem.return_(oalsem.lit(True))]
@@ -290,6 +306,16 @@ class ModelGen(object):
                 if v not in locals_ or locals_[v] == BOOL:
                     stmts.append(oalsem.assign(oalsem.var(v), oalsem.bin_(op, left, call_node(eff[0], {}))))
                     locals_[v] = BOOL
+        if e.kind == 'iop' and r.random() < 0.6:
+            bump = [x for x in self.elems[:rank] if x.name == 'bump_all']
+            pair = [x for x in self.elems[:rank] if x.name == 'pair']
+            if bump and pair:
+                ARG_ORDER[0] += 1
+                v = self.fresh()
+                if v not in locals_ or locals_[v] == INT:
+                    stmts.append(oalsem.assign(oalsem.var(v), call_node(pair[0], {
+                        'a': oalsem.attr(oalsem.self_(), 'N'), 'b': call_node(bump[0], {})})))
+                    locals_[v] = INT
         for _ in range(r.randint(0, 3)):
             k = r.random()
             if k < 0.5:
@@ -723,3 +749,4 @@ def run(ctx):
         ctx.hit('Call.legacy-keyword-' + k, v)
     for k, v in DER_FORMS.items():
         ctx.hit('Call.derived-attribute-' + k, v)
+    ctx.hit('Call.argument-order-observable', ARG_ORDER[0])
